@@ -11,10 +11,13 @@ import (
 
 	"github.com/cloudwego/hertz/pkg/app"
 	"github.com/cloudwego/hertz/pkg/app/middlewares/server/recovery"
+	"github.com/cloudwego/hertz/pkg/common/bytebufferpool"
 	"github.com/cloudwego/hertz/pkg/common/config"
 	"github.com/cloudwego/hertz/pkg/common/tracer/stats"
 	"github.com/cloudwego/hertz/pkg/network"
 	"github.com/cloudwego/hertz/pkg/network/standard"
+	"github.com/cloudwego/hertz/pkg/protocol"
+	"github.com/cloudwego/hertz/pkg/protocol/http1/ext"
 	"github.com/cloudwego/hertz/pkg/route"
 
 	"github.com/cloudwego/hertz/pkg/app/server"
@@ -28,7 +31,7 @@ import (
 func main() {
 	mon.Main(&mon.Spec{
 		ID: "C19",
-		Rule: "each case = one connection history of 0..6 requests (keep-alive, close, pipelined) with a seeded outcome per request {ok, handler panic caught by the recovery middleware, malformed header, body too large, peer closes mid-body, write error, hijack} and a seeded end of connection {peer EOF, idle time-out, reset}, on engines with IdleTimeout 0 (return-to-poller: the rig re-enters Serve while input remains) and > 0, trace levels base and detailed, under seeded segmentation; POST bodies of 6..9600 bytes are compared with what Request.Body() gives inside Finish (poison-on-free hook H3 on); a recording tracer's Start/Finish calls and the stage events are judged by an online checker of the (Start Finish)* grammar and the stage order; " +
+		Rule: "each case = one connection history of 0..6 requests (keep-alive, close, pipelined) with a seeded outcome per request {ok, handler panic caught by the recovery middleware, malformed header, body too large, peer closes mid-body, write error, hijack} and a seeded end of connection {peer EOF, idle time-out, reset}, on engines with IdleTimeout 0 (return-to-poller: the rig re-enters Serve while input remains) and > 0, trace levels base and detailed, under seeded segmentation; a quarter of the engines stream request bodies, their tracer first takes a stream from the body-stream pool for a marker body (standing in for another connection) and then reads Request.Body(); POST bodies of 6..9600 bytes are compared with what Request.Body() gives inside Finish (poison-on-free hook H3 on); a recording tracer's Start/Finish calls and the stage events are judged by an online checker of the (Start Finish)* grammar and the stage order; " +
 			"distinct = hash of (idle mode, level, outcome sequence, end action, segmentation policy); non-trivial = at least 2 requests or a non-ok outcome",
 		Assumptions: []string{
 			"loopback family: real servers on the standard and netpoll transports, the client closes the connection after the responses; the tracer log is read once it has been stable for 30 ms",
@@ -106,6 +109,15 @@ func (r *rec) Finish(ctx context.Context, c *app.RequestContext) {
 	body := ""
 	if !c.Request.IsBodyStream() {
 		body = string(c.Request.Body())
+	} else {
+		// The request still has a body stream.  If that object has already gone back to the
+		// stream pool, the next connection to need one gets it: stand in for that
+		// connection, take a stream from the pool for a body of our own, and see whose
+		// bytes the request's Body() gives then.
+		marker := "BODY-OF-A-REQUEST-ON-ANOTHER-CONNECTION"
+		other := ext.AcquireBodyStream(&bytebufferpool.ByteBuffer{B: []byte(marker)}, nil, &protocol.Trailer{}, len(marker))
+		body = string(c.Request.Body())
+		ext.ReleaseBodyStream(other) //nolint:errcheck
 	}
 	r.log = append(r.log, ev{kind: "F", remote: remoteOf(c), path: string(c.Request.Header.RequestURI()), fullPath: c.FullPath(), body: body, stages: sb.String(), problem: problem})
 	r.mu.Unlock()
@@ -123,6 +135,7 @@ func remoteOf(c *app.RequestContext) string {
 type ecfg struct {
 	idle0    bool
 	detailed bool
+	stream   bool // request bodies are streamed
 }
 
 type engine struct {
@@ -140,6 +153,7 @@ func build(cf ecfg) *engine {
 			o.IdleTimeout = time.Minute
 		}
 		o.MaxRequestBodySize = 10000
+		o.StreamRequestBody = cf.stream
 		if cf.detailed {
 			o.TraceLevel = stats.LevelDetailed
 		} else {
@@ -231,7 +245,7 @@ func work(w *mon.W) {
 
 func oneConn(w *mon.W, c *mon.Case, get func(ecfg) *engine, loopback bool) {
 	r := c.R
-	cf := ecfg{idle0: r.Bool(), detailed: r.Bool()}
+	cf := ecfg{idle0: r.Bool(), detailed: r.Bool(), stream: r.Chance(4)}
 	var en *engine
 	var lb *lbServer
 	np := false
@@ -260,7 +274,13 @@ func oneConn(w *mon.W, c *mon.Case, get func(ecfg) *engine, loopback bool) {
 	for i := 0; i < n && !stop; i++ {
 		path := fmt.Sprintf("/ok/%d/%d", c.I, i)
 		oc := "ok"
-		switch r.Intn(14) {
+		pick := r.Intn(14)
+		if cf.stream && !loopback && pick >= 1 && pick <= 5 {
+			// (streamed bodies: the histories stay with the outcomes whose course does not
+			// depend on the body mode — ok, panic, close, post-body)
+			pick = 7
+		}
+		switch pick {
 		case 0:
 			oc = "panic"
 			path = fmt.Sprintf("/panic/%d/%d", c.I, i)
@@ -461,7 +481,15 @@ func oneConn(w *mon.W, c *mon.Case, get func(ecfg) *engine, loopback bool) {
 			// … and so is the body: what Request.Body() gives inside Finish is the body this
 			// request was sent with (the buffers of the connection are poisoned when they
 			// are released, hook H3, so a view into released memory shows as 0xDD bytes)
-			if want, ok := bodies[x.path]; ok && reached[x.path] && x.body != want {
+			if want, ok := bodies[x.path]; ok && reached[x.path] && cf.stream && !loopback {
+				// streamed: the handler did not read the body, Finish may see what had been
+				// prefetched of it (a prefix), never another request's bytes
+				if !strings.HasPrefix(want, x.body) {
+					c.Violate("finish-body-stream", "streaming server, the Finish of request %q: Request.Body() gives %d bytes starting %q — not bytes of this request's body (%d bytes starting %q): the request still points at a body stream that has gone back to the pool", x.path, len(x.body), trunc(x.body, 40), len(want), trunc(want, 24))
+					return
+				}
+				w.Count("finish_bodies_compared_streaming", 1)
+			} else if want, ok := bodies[x.path]; ok && reached[x.path] && x.body != want {
 				c.Violate("finish-body", "the Finish of request %q: Request.Body() is %d bytes starting %q, the request was sent with %d bytes starting %q", x.path, len(x.body), trunc(x.body, 24), len(want), trunc(want, 24))
 				// (the other clauses are still judged on this history)
 			}
